@@ -22,3 +22,28 @@ package channeldb
 //@   loop * havoc
 //@   loop 0 step len(heightDiffs[addRef.Height]) == prevheap(len(heightDiffs[addRef.Height])) + 1
 //@   site call ackAddHtlcsAtHeight: assert arg(0) == sourceBkt && arg(1) == height && arg(2) == indexes
+//@
+//@ func (c *ChannelStateDB) UpdateChannelCommitment$1
+//@   props C03 C02
+//@   loop * havoc
+//@   site call putChanCommitment: assert arg(1) == newCommitment && arg(2)
+//@   site call serializeLogUpdates nth 0: assert arg(1) == unsignedAckedUpdates
+//@   site call Put nth 0: assert arg(1) == unsignedAckedUpdatesKey && ret(putChanCommitment) == nil
+//@   site call Put nth 1: assert arg(1) == lastWasRevokeKey && ret(Put, 0) == nil
+//@   site call Put nth 2: assert arg(1) == remoteUnsignedLocalUpdatesKey && ret(Put, 1) == nil
+//@   site call WriteElements: assert true
+//@   site return nil: assert ret(Put, 0) == nil && ret(Put, 1) == nil
+//@   loop 0 step len(unsignedUpdates) == prev(len(unsignedUpdates)) + ite(upd.LogIndex >= newCommitment.LocalLogIndex, 1, 0)
+//@   site call processFinalHtlc: assert upd.LogIndex < newCommitment.LocalLogIndex && arg(1) == upd
+//@
+//@ func (c *ChannelStateDB) putChanStatus$1
+//@   props C06 C02
+//@   loop * havoc
+//@   site call putOpenChannel: assert retn(fetchOpenChannel, 1) == nil && arg(1) == retn(fetchOpenChannel, 0) && arg(0) == retn(fetchChanBucketRw, 0)
+//@   site call SetChannelStatusForStore: assert arg(0) == retn(fetchOpenChannel, 0)
+//@   site call fetchOpenChannel: assert arg(0) == retn(fetchChanBucketRw, 0) && arg(1) == addr(channel.FundingOutpoint)
+//@
+//@ func (c *ChannelStateDB) ClearChannelStatus$1
+//@   props C06 C02
+//@   site call putOpenChannel: assert retn(fetchOpenChannel, 1) == nil && arg(1) == retn(fetchOpenChannel, 0) && arg(0) == retn(fetchChanBucketRw, 0)
+//@   site call SetChannelStatusForStore: assert arg(0) == retn(fetchOpenChannel, 0)
